@@ -1,14 +1,13 @@
 package c09
 
 import (
-	"archive/tar"
 	"bytes"
 	"context"
 	"fmt"
 	"os"
 	"path/filepath"
-	"sort"
 	"strings"
+	"sync/atomic"
 	"testing"
 	"time"
 
@@ -25,6 +24,10 @@ import (
 )
 
 const prop = "C09"
+
+// watchdogs counts imports / exports that ran into the 60 s wall-clock budget or
+// the model's request cap: inconclusive, never a violation.
+var watchdogs atomic.Int64
 
 func TestMain(m *testing.M) {
 	code := m.Run()
@@ -426,10 +429,6 @@ func closureNodes(g *imggen.Graph) []*imggen.Node {
 	return out
 }
 
-type srcView struct {
-	audit.View
-}
-
 func check(c Case, ev *evid.Collector) *evid.Violation {
 	switch c.Kind {
 	case "roundtrip":
@@ -667,6 +666,7 @@ func checkRoundTrip(c Case, ev *evid.Collector) *evid.Violation {
 	var buf bytes.Buffer
 	err = rcx.ImageExport(ctx, sr, &buf, xo...)
 	if ctx.Err() == context.DeadlineExceeded || e.m.CapHit() {
+		watchdogs.Add(1)
 		finish("watchdog", false)
 		return nil
 	}
@@ -839,6 +839,7 @@ func checkRoundTrip(c Case, ev *evid.Collector) *evid.Violation {
 		run := func() outcome { return rt.importVerify(raw, baseSel, "base", verifyMain(baseSel.tag)) }
 		o := run()
 		if o.inconclusive {
+			watchdogs.Add(1)
 			finish("watchdog", false)
 			return nil
 		}
@@ -904,6 +905,7 @@ func checkRoundTrip(c Case, ev *evid.Collector) *evid.Violation {
 			label := fmt.Sprintf("variant %d [%s]", vi, strings.Join(cur.features(names), "+"))
 			o := try(cur, label)
 			if o.inconclusive {
+				watchdogs.Add(1)
 				finish("watchdog", false)
 				return nil
 			}
@@ -926,6 +928,7 @@ func checkRoundTrip(c Case, ev *evid.Collector) *evid.Violation {
 			}
 			at := attribute(cur, o, names, entries, try, func(o outcome) *evid.Violation { return o.v }, diagnose, label)
 			if at.inconclusive {
+				watchdogs.Add(1)
 				finish("watchdog", false)
 				return nil
 			}
@@ -1100,6 +1103,7 @@ func checkDocker(c Case, ev *evid.Collector) *evid.Violation {
 	}
 	o := rt.importVerify(raw, sel, "docker base", vf(sel.tag))
 	if o.inconclusive {
+		watchdogs.Add(1)
 		finish("watchdog", false)
 		return nil
 	}
@@ -1124,6 +1128,7 @@ func checkDocker(c Case, ev *evid.Collector) *evid.Violation {
 			fs := cur.features(names)
 			o := try(cur, fmt.Sprintf("docker variant [%s]", strings.Join(fs, "+")))
 			if o.inconclusive {
+				watchdogs.Add(1)
 				finish("watchdog", false)
 				return nil
 			}
@@ -1132,6 +1137,7 @@ func checkDocker(c Case, ev *evid.Collector) *evid.Violation {
 			}
 			at := attribute(cur, o, names, b.entries, try, func(o outcome) *evid.Violation { return qualify(o, true) }, nil, "docker variant")
 			if at.inconclusive {
+				watchdogs.Add(1)
 				finish("watchdog", false)
 				return nil
 			}
@@ -1157,6 +1163,13 @@ func checkDocker(c Case, ev *evid.Collector) *evid.Violation {
 // ---------------------------------------------------------------------------
 // tests
 
+func inconclusive(t *testing.T) {
+	if n := watchdogs.Load(); n > 0 {
+		// no failure record is written: run.py reports the run as inconclusive (exit 2)
+		t.Errorf("inconclusive: %d operations hit the wall-clock watchdog / request cap", n)
+	}
+}
+
 func TestVerifProp(t *testing.T) {
 	ev := evid.For(prop)
 	rapid.Check(t, func(rt *rapid.T) {
@@ -1166,6 +1179,7 @@ func TestVerifProp(t *testing.T) {
 			rt.Fatalf("%v", v)
 		}
 	})
+	inconclusive(t)
 }
 
 func TestVerifDocker(t *testing.T) {
@@ -1177,6 +1191,7 @@ func TestVerifDocker(t *testing.T) {
 			rt.Fatalf("%v", v)
 		}
 	})
+	inconclusive(t)
 }
 
 func TestVerifReplayDir(t *testing.T) {
@@ -1210,6 +1225,3 @@ func TestVerifReplay(t *testing.T) {
 		}
 	}
 }
-
-var _ = sort.Strings
-var _ = tar.TypeReg
